@@ -131,7 +131,10 @@ def run_adic_rand(ctx, spec):
                   r.randint(1, 4096)])
     if ctx.want('r%d' % i):
       _adic_case(ctx, ntu, n, k, False)
-  ctx.sample({'helper': 'Sqrt2exp', 'n': n, 'k': k})
+  try:
+    ctx.sample({'helper': 'Sqrt2exp', 'n': n, 'k': k})
+  except NameError:
+    pass
 
 
 # ------------------------------------- continued fractions, division, sieve
@@ -255,7 +258,10 @@ def run_cf(ctx, spec):
     if not ok:
       ctx.violation('exttree-levels', 'product tree level is not the pairwise '
                     'product of the level below (len %d)' % ln, {'len': ln})
-  ctx.sample({'helper': 'ExtendedProductTree', 'values': vals[:4], 'len': ln})
+  try:
+    ctx.sample({'helper': 'ExtendedProductTree', 'values': vals[:4], 'len': ln})
+  except NameError:
+    pass
 
 
 # ------------------------------------------------------------------ linalg
@@ -346,7 +352,10 @@ def run_linalg_exh(ctx, spec):
       if nr * nc <= 4:
         for b in itertools.product((0, 1), repeat=nr):
           _linalg_case(ctx, la, a, list(b), 'exh-b')
-  ctx.sample({'helper': 'solve_right', 'a': a, 'b': b})
+  try:
+    ctx.sample({'helper': 'solve_right', 'a': a, 'b': b})
+  except NameError:
+    pass
 
 
 def run_linalg_rand(ctx, spec):
@@ -387,7 +396,10 @@ def run_linalg_rand(ctx, spec):
     else:
       b = [r.randint(-lim, lim) for _ in range(nr)]
     _linalg_case(ctx, la, a, b, 'rand')
-  ctx.sample({'helper': 'solve_right', 'a': a, 'b': b})
+  try:
+    ctx.sample({'helper': 'solve_right', 'a': a, 'b': b})
+  except NameError:
+    pass
   # upper_triangular_solve on genuinely triangular systems
   for i in range(spec['n'] // 20):
     n = r.randint(1, 6)
@@ -569,7 +581,10 @@ def run_stats(ctx, spec):
     close(ru.BinomialCdf(nn, m), want, 1e-15, 1e-9, 'binomialcdf',
           'BinomialCdf(%d,%d)' % (nn, m), {'n': nn, 'm': m})
     ctx.distinct('special', a, x, m, nn)
-  ctx.sample({'helper': 'CombinedPValue', 'pvalues': ps})
+  try:
+    ctx.sample({'helper': 'CombinedPValue', 'pvalues': ps})
+  except NameError:
+    pass
 
 
 # ------------------------------------------------------------- small roots
@@ -660,7 +675,10 @@ def run_roots(ctx, spec):
                         {'n': n, 'p0': p0, 'q0': q0})
         else:
           ctx.count('found:' + regime)
-  ctx.sample({'helper': 'small_roots', 'n': n, 'regime': regime})
+  try:
+    ctx.sample({'helper': 'small_roots', 'n': n, 'regime': regime})
+  except NameError:
+    pass
 
 
 def run(ctx, spec):
